@@ -11,7 +11,7 @@ import tables
 from wire import Obj, Tagged
 
 PROP = "C05"
-MODULES = ["JV.Props.C05"]
+MODULES = ["JV.Props.C05", "JV.Props.C05X"]
 HARNESS = "fz"
 
 
